@@ -46,21 +46,21 @@ fn verif_root() -> String {
 fn plan(prop: &str, tier: &str) -> (&'static str, u64) {
     let thorough = tier == "thorough";
     match prop {
-        "C01" => ("seq", if thorough { 400_000 } else { 24_000 }),
-        "C05" => ("seq", if thorough { 400_000 } else { 24_000 }),
-        "C06" => ("seq", if thorough { 300_000 } else { 20_000 }),
-        "C07" => ("seq", if thorough { 200_000 } else { 10_000 }),
-        "C08" => ("seq", if thorough { 120_000 } else { 6_000 }),
-        "C03" => ("seq", if thorough { 150_000 } else { 8_000 }),
-        "C02" => ("crash", if thorough { 20_000 } else { 1_200 }),
-        "C11" => ("fault", if thorough { 6_000 } else { 320 }),
-        "C10" => ("long", if thorough { 6_000 } else { 800 }),
-        "C16" => ("cfg", if thorough { 1_500 } else { 128 }),
-        "C15" => ("compat", if thorough { 200_000 } else { 8_000 }),
-        "C04" => ("shuttle", if thorough { 4_000_000 } else { 160_000 }),
-        "C09" => ("shuttle", if thorough { 1_500_000 } else { 32_000 }),
-        "C13" => ("shuttle", if thorough { 1_000_000 } else { 60_000 }),
-        "C12" => ("corrupt", if thorough { 4_000 } else { 480 }),
+        "C01" => ("seq", if thorough { 1200000 } else { 24000 }),
+        "C05" => ("seq", if thorough { 1200000 } else { 24000 }),
+        "C06" => ("seq", if thorough { 600000 } else { 20000 }),
+        "C07" => ("seq", if thorough { 400000 } else { 10000 }),
+        "C08" => ("seq", if thorough { 120000 } else { 6000 }),
+        "C03" => ("seq", if thorough { 500000 } else { 8000 }),
+        "C02" => ("crash", if thorough { 40000 } else { 1200 }),
+        "C11" => ("fault", if thorough { 5000 } else { 320 }),
+        "C10" => ("long", if thorough { 5000 } else { 800 }),
+        "C16" => ("cfg", if thorough { 320 } else { 128 }),
+        "C15" => ("compat", if thorough { 1000000 } else { 8000 }),
+        "C04" => ("shuttle", if thorough { 2000000 } else { 160000 }),
+        "C09" => ("shuttle", if thorough { 500000 } else { 32000 }),
+        "C13" => ("shuttle", if thorough { 4000000 } else { 60000 }),
+        "C12" => ("corrupt", if thorough { 16000 } else { 480 }),
         _ => ("none", 0),
     }
 }
@@ -268,6 +268,26 @@ fn cmd_check(prop: &str, tier: &str) -> i32 {
             None => new_violations.push((path, format!("{}: {}", key, viol.detail))),
         }
     }
+    // regression corpus: the minimised replay of every defect repaired so far must stay clean
+    let mut regression = Vec::new();
+    if let Ok(rd) = std::fs::read_dir(format!("{}/replays/known", root)) {
+        let mut files: Vec<_> = rd.filter_map(|e| e.ok()).map(|e| e.path()).filter(|p| p.file_name().and_then(|n| n.to_str()).map(|n| n.starts_with(&format!("{}-", prop)) && n.ends_with(".json")).unwrap_or(false)).collect();
+        files.sort();
+        for f in files {
+            let path = f.to_string_lossy().to_string();
+            if let Some(c) = std::fs::read(&f).ok().and_then(|b| serde_json::from_slice::<Value>(&b).ok()).and_then(|v| Case::from_json(&v)) {
+                let v = props::execute(&c);
+                let bad = v.violation.is_some();
+                regression.push(json!({"replay": path, "violation": bad}));
+                if let Some(x) = v.violation {
+                    new_violations.push((path.clone(), format!("regression: a repaired defect is back: {} @ {}: {}", x.oracle, x.site, x.detail)));
+                }
+                if let Some(h) = v.harness_error {
+                    harness_errors.push(format!("{}: {}", path, h));
+                }
+            }
+        }
+    }
     simos::bypass(|| {
         let _ = std::fs::remove_dir_all(props::scratch_root());
     });
@@ -320,6 +340,7 @@ fn cmd_check(prop: &str, tier: &str) -> i32 {
             "violations_by_site": acc.per_site,
             "minimised": minimised,
             "known_findings_matched": known_hits,
+            "regression_replays": regression,
             "harness_errors": harness_errors,
             "real_vs_stub": real_vs_stub(),
         },
@@ -517,7 +538,30 @@ fn main() {
             })
         }
         Some("selftest") => cmd_selftest(args.get(1).map(|s| s.as_str()).unwrap_or("quick")),
-        Some("replay") if args.len() >= 2 => cmd_replay(&args[1]),
+        // the replay itself runs in a child process: a run that kills its process (abort,
+        // segmentation fault) must be reported as the violation it is, not take the tool down
+        Some("replay") if args.len() >= 2 => {
+            let st = std::process::Command::new(std::env::current_exe().unwrap()).args(["replay-inner", &args[1]]).status();
+            match st {
+                Ok(s) if s.code().is_some() => s.code().unwrap(),
+                Ok(s) => {
+                    let prop = std::fs::read(&args[1])
+                        .ok()
+                        .and_then(|b| serde_json::from_slice::<Value>(&b).ok())
+                        .and_then(|v| v.get("property").and_then(|p| p.as_str()).map(|s| s.to_string()))
+                        .unwrap_or_default();
+                    println!("VIOLATION property={} replay={}", prop, args[1]);
+                    println!("  oracle=process-died site={:?}", s);
+                    println!("  executing the recorded run killed its process: {:?}", s);
+                    1
+                }
+                Err(e) => {
+                    eprintln!("HARNESS-ERROR: cannot spawn the replay: {}", e);
+                    2
+                }
+            }
+        }
+        Some("replay-inner") if args.len() >= 2 => cmd_replay(&args[1]),
         Some("oneshot") => cfg::oneshot(),
         Some("make-golden") if args.len() >= 2 => match compat::make_golden(&args[1]) {
             Ok(()) => 0,
